@@ -165,6 +165,10 @@ type c14Obs struct {
 	stderr    string
 }
 
+// c14ProbeSource reports the requests whose column reads a table they do not lock (set by c14_gen.go, which is not
+// part of the race build; nil there)
+var c14ProbeSource func() []c14Probe
+
 // race reports that are understood and harmless, by pair (none so far; see notes/C14.md)
 var c14Explained = map[string]string{}
 
@@ -178,7 +182,9 @@ func c14GenScenario(rnd *vRand, tier string, idx int) *c14Scenario {
 	sc.KeepAlive = rnd.chance(1, 2)
 	// every third scenario: only whole-table updaters, so that the epoch of a table must be uniform
 	sc.Epochs = idx%3 == 1
-	nClients := 3 + rnd.intn(4)
+	// every other scenario: comments and downtimes of the backends never change, served lists must be exact
+	sc.StaticCD = idx%2 == 0
+	nClients := 3 + rnd.intn(3)
 	for range nClients {
 		kinds := []string{}
 		for range 2 + rnd.intn(4) {
@@ -192,6 +198,9 @@ func c14GenScenario(rnd *vRand, tier string, idx int) *c14Scenario {
 	}
 	// always some plain readers with reference columns
 	sc.Clients = append(sc.Clients, []string{"services", "hosts", "servicesbygroup"})
+	// ... and two asking for the comment / downtime lists of hosts and services, directly, through reference columns
+	// and through the by-group tables
+	sc.Clients = append(sc.Clients, []string{"svclists", "virtcols", "comlists"}, []string{"bygrouplists", "downlists", "svclists", "virtcols"})
 	for range 3 + rnd.intn(5) {
 		kind := vPick(rnd, c14UpdaterKinds)
 		if sc.Epochs && kind == "idle" {
@@ -199,7 +208,11 @@ func c14GenScenario(rnd *vRand, tier string, idx int) *c14Scenario {
 		}
 		sc.Updaters = append(sc.Updaters, kind)
 	}
-	sc.Updaters = append(sc.Updaters, "delta", "periodic")
+	sc.Updaters = append(sc.Updaters, "delta", "periodic", "rebuild", "restart")
+	if !sc.StaticCD {
+		sc.Updaters = append(sc.Updaters, "comments")
+		sc.Mutators = append(sc.Mutators, "comment", "downtime")
+	}
 	for range 3 + rnd.intn(4) {
 		kind := vPick(rnd, c14MutatorKinds)
 		if sc.Epochs && kind == "timeperiod" {
@@ -213,6 +226,39 @@ func c14GenScenario(rnd *vRand, tier string, idx int) *c14Scenario {
 	}
 
 	return sc
+}
+
+// c14PickProbes: at most n probes, one per table and column (the plain `Columns:` request when there is one), spread
+// over the tables that are read without lock
+func c14PickProbes(all []c14Probe, n int) []c14Probe {
+	perCol := map[string]c14Probe{}
+	order := []string{}
+	for _, probe := range all {
+		key := probe.Table + "." + probe.Column
+		if prev, ok := perCol[key]; !ok {
+			perCol[key] = probe
+			order = append(order, key)
+		} else if prev.Usage != "LCol" && probe.Usage == "LCol" {
+			perCol[key] = probe
+		}
+	}
+	picked := []c14Probe{}
+	seenUnlocked := map[string]int{}
+	done := map[string]bool{}
+	for round := 0; round < 4 && len(picked) < n; round++ {
+		for _, key := range order {
+			probe := perCol[key]
+			tag := strings.Join(probe.Unlocked, ",")
+			if done[key] || seenUnlocked[tag] != round || len(picked) >= n {
+				continue
+			}
+			done[key] = true
+			seenUnlocked[tag]++
+			picked = append(picked, probe)
+		}
+	}
+
+	return picked
 }
 
 func c14RunScenario(racebin, dir string, idx int, sc *c14Scenario) *c14Obs {
@@ -273,9 +319,9 @@ func c14RunScenario(racebin, dir string, idx int, sc *c14Scenario) *c14Obs {
 }
 
 // c14QueryTextForOrder is the request text of a client kind (for one fictitious peer).
-func c14QueryTextForOrder(kind string) string {
+func c14QueryTextForOrder(sc *c14Scenario, kind string) string {
 	cp := &c14Peer{id: "p1", nHosts: 1, nSvcs: 1, hver: make([]atomic.Int64, 1), sver: make([]atomic.Int64, 1)}
-	world := &c14World{peers: []*c14Peer{cp}}
+	world := &c14World{sc: sc, peers: []*c14Peer{cp}}
 
 	return world.buildQuery(kind, newVRand(1)).text
 }
@@ -324,10 +370,14 @@ func c14Coq(idx int, obs *c14Obs) string {
 		races[i] = coqStr(report.Pair)
 	}
 	bad := len(res.Malformed) + len(res.Incomplete) + len(res.FilterViol) + len(res.Future)
+	lists := make([]string, len(res.ListObs))
+	for i, lo := range res.ListObs {
+		lists[i] = fmt.Sprintf("(%s, %s, %s)", c14CoqZList(lo[0]), c14CoqZList(lo[1]), c14CoqZList(lo[2]))
+	}
 
-	return fmt.Sprintf("Definition c%d : case := mkCase %s\n  %s\n  %s\n  %s\n  %s\n  %d%%nat %s %d%%nat %s.\n", idx,
+	return fmt.Sprintf("Definition c%d : case := mkCase %s\n  %s\n  %s\n  %s\n  %s\n  %d%%nat %s %d%%nat %s\n  %s.\n", idx,
 		coqList(orders), c14CoqZLists(res.StampVecs), c14CoqZLists(res.SetVecs), c14CoqZLists(res.Stats), c14CoqZLists(res.Sums),
-		bad, coqList(races), res.Deadlocks, coqBool(obs.crash != ""))
+		bad, coqList(races), res.Deadlocks, coqBool(obs.crash != ""), coqList(lists))
 }
 
 func c14RaceMain(args []string) int {
@@ -351,6 +401,9 @@ func c14RaceMain(args []string) int {
 		"one update-loop goroutine per peer (delta / periodic / per-minute / full / scan / rebuild swap / comment diff / down-up / broken / idle), "+
 		"3-7 clients over a real unix listener (data with reference columns, Stats, by-group, virtual columns, WaitTrigger/WaitCondition), a few seconds "+
 		"each in the -race build with go-deadlock enabled; distinct stamp vectors per scenario are capped at 250 (all inconsistent ones are kept). "+
+		"Backends have comments and downtimes on hosts and services (every other scenario: changing), every update menu has full reloads (rebuild, core restart), "+
+		"two clients ask for the comment/downtime lists (own, referenced, by-group): each distinct (served, must, may) is kept (violations first, 250). "+
+		"Requests reported by the lock coverage matrix (none when its obligation holds) are sent by two more clients. "+
 		"non-trivial: at least 50 answers checked and at least one update of each peer ran concurrently; distinct by scenario")
 	scenarios := []*c14Scenario{}
 	if sf.replay != "" {
@@ -359,6 +412,27 @@ func c14RaceMain(args []string) int {
 		rnd := newVRand(sf.seed)
 		for i := range sf.n {
 			scenarios = append(scenarios, c14GenScenario(rnd, sf.tier, i))
+		}
+		// requests the lock coverage matrix reports as reading a table without its lock (none on a tree whose generated
+		// obligation holds): one more client sends them while the tables they read change
+		if c14ProbeSource != nil {
+			probes := c14PickProbes(c14ProbeSource(), 8)
+			for _, sc := range scenarios {
+				if len(probes) == 0 {
+					break
+				}
+				sc.Probes = probes
+				kinds := []string{}
+				for i := range probes {
+					kinds = append(kinds, fmt.Sprintf("probe%d", i))
+				}
+				sc.Clients = append(sc.Clients, kinds, kinds)
+				if !sc.Epochs {
+					sc.StaticCD = false
+					sc.Updaters = append(sc.Updaters, "comments", "comments")
+					sc.Mutators = append(sc.Mutators, "comment", "downtime")
+				}
+			}
 		}
 	}
 	dir := filepath.Dir(sf.out)
@@ -378,7 +452,7 @@ func c14RaceMain(args []string) int {
 					continue
 				}
 				seenKind[kind] = true
-				order, err := c14LockOrder(lmd, c14QueryTextForOrder(kind))
+				order, err := c14LockOrder(lmd, c14QueryTextForOrder(sc, kind))
 				if err != nil {
 					fmt.Fprintf(os.Stderr, "c14race: request of kind %s does not parse: %s\n", kind, err)
 
@@ -432,6 +506,11 @@ func c14RaceMain(args []string) int {
 			if len(res.Malformed)+len(res.Incomplete)+len(res.FilterViol)+len(res.Future) > 0 {
 				observed = append(observed, "malformed")
 			}
+			if len(res.ListBad) > 0 {
+				observed = append(observed, "lists")
+				meta.count("comment/downtime lists that do not fit the backend")
+			}
+			meta.Histogram["comment/downtime lists checked"] += res.ListTotal
 			updates := 0
 			for key, val := range res.Hist {
 				if strings.HasPrefix(key, "update:") {
@@ -448,6 +527,10 @@ func c14RaceMain(args []string) int {
 		meta.add(string(key), nontrivial, &input)
 		meta.count(fmt.Sprintf("peers=%d", sc.Peers))
 		meta.count(fmt.Sprintf("epochs=%v", sc.Epochs))
+		meta.count(fmt.Sprintf("static comments/downtimes=%v", sc.StaticCD))
+		if len(sc.Probes) > 0 {
+			meta.count("scenarios with requests reported by the lock coverage matrix")
+		}
 		entry := map[string]interface{}{"scenario": &input, "exit": obs.exit, "crash": obs.crash, "result": obs.result}
 		reports := []c14Report{}
 		reports = append(reports, obs.races...)
